@@ -100,8 +100,13 @@ def main(argv):
             if fired:
                 wrong += 1
                 print("ALARM    %-40s %s" % (n, fired))
+                shown = set()
                 for p in fired:
                     for k, d in new[p][:4]:
+                        kk = k.split(".", 1)[-1] if not k.startswith(p + ".C") else k.split(".", 2)[-1]
+                        if (kk, d[:80]) in shown:
+                            continue
+                        shown.add((kk, d[:80]))
                         print("            %s: %s" % (k, d[:170]))
             elif verbose:
                 print("ok       %-40s silent" % n)
